@@ -233,7 +233,7 @@ def events_of(sc, res):
 
 def run(ctx):
     ctx.check_theorems("ActsModel.Props.C03")
-    n = 300 if ctx.tier == "quick" else 8000
+    n = 1200 if ctx.tier == "quick" else 8000
     scs = [gen_scenario(ctx.seed, i) for i in range(n)]
     results = ctx.harness("run", scs)
     models = ctx.driver([opcorr.model_request(sc) for sc in scs], tag="dm")
